@@ -287,6 +287,14 @@ fn emit_expression_ctx(
             } else if let Some(path) = context.and_then(|ctx| ctx.qualified_choice_labels.get(name))
             {
                 out.push(json!({"CNT?": path}))
+            } else if let Some((qname, val)) = context
+                .filter(|_| name.contains('.'))
+                .and_then(|ctx| ctx.resolve_list_item(name))
+            {
+                // `List.item` used as a value
+                let mut list_map = serde_json::Map::new();
+                list_map.insert(qname, json!(val));
+                out.push(json!({"list": list_map}))
             } else if name.contains('.') {
                 out.push(json!({"CNT?": name}))
             } else if let (Some(s), Some(ctx)) = (scope, context)
